@@ -145,27 +145,21 @@ def turnover_case(cx, trace, spans):
     """the matcher's per-instrument turnover over the whole run: cleared when a BAR / BEFORE_TRADING event begins, raised by every fill
     (Model/MatcherRun.v turnover_run); the observed value before and after every matcher call must be the model's"""
     ids = {}
-    end_of = dict(spans)
     obs = []
     ncalls = nfill = 0
-    for i, m in enumerate(trace):
+    for m in trace:
         if m['k'] == 'ev0' and m['ev'] in ('BAR', 'BEFORE_TRADING'):
             if not obs or obs[-1] != 'TClear':
                 obs.append('TClear')
-        elif m['k'] == 'match0' and i in end_of:
-            m1 = trace[end_of[i]]
+        elif m['k'] == 'ev0' and m['ev'] == 'TRADE' and m['payload']['trade'].get('order_id') is not None:
+            t = m['payload']['trade']
+            obs.append('TFill %d%%nat %s' % (ids.setdefault(t['oid'], len(ids)), q(t['qty'])))
+            nfill += 1
+        elif m['k'] in ('match0', 'match1'):
             oid = m['order']['oid']
-            k = ids.setdefault(oid, len(ids))
-            fill = 0.0
-            for j in range(i + 1, end_of[i]):
-                t = trace[j]
-                if t['k'] == 'ev0' and t['ev'] == 'TRADE' and t['payload']['trade']['order_id'] == m['order']['id']:
-                    fill += t['payload']['trade']['qty']
-            pre = float((m['snap'].get('turnover') or {}).get(oid, 0))
-            post = float((m1['snap'].get('turnover') or {}).get(oid, 0))
-            obs.append('TCall %d%%nat %s %s %s' % (k, q(pre), q(fill), q(post)))
-            ncalls += 1
-            nfill += fill > 0
+            v = float((m['snap'].get('turnover') or {}).get(oid, 0))
+            obs.append('%s %d%%nat %s' % ('TPre' if m['k'] == 'match0' else 'TPost', ids.setdefault(oid, len(ids)), q(v)))
+            ncalls += m['k'] == 'match0'
     if ncalls:
         cx.case('match.turnover', 'chk_turnover_run [%s]' % '; '.join(obs), dict(n_calls=ncalls, n_fills=nfill, instruments=len(ids)))
         cx.keys.add(repr(('T', min(ncalls, 5), min(nfill, 5), min(len(ids), 3), cx.cfg['base']['frequency'])))
@@ -219,6 +213,16 @@ def analyse(scn, out):
         po = per_order.setdefault(o0['id'], dict(ins=[], evs=[], order=o0))
         # the lifecycle machine does not look at the reason of a reject / cancel
         lo = outcome if okind in ('fill', 'nomatch') else ('Rejected RPartial' if outcome.startswith('Rejected') else 'Cancelled RPartial')
+        if tr is not None and any(i0 < a and b < i1 and trace[a]['order']['id'] == o0['id'] for a, b in spans):
+            # re-entrant matching: a TRADE handler placed an order, and the nested matching round met this order again before the outer call
+            # cancelled the rest of it - for the order's own machine the outer call is the fill only, what ended the order is the nested call
+            lo = 'Filled %s %s %s false' % (q(tr['price']), q(tr['qty']), q(tr['ct'] or 0.0))
+            cx.stats['reentrant_same_order'] = cx.stats.get('reentrant_same_order', 0) + 1
+            if auction:
+                # ... and in the auction the order still sits in the auction book while the nested round runs, so it is matched a second time with
+                # the auction rule inside the same auction: the per-order machine (one auction call per order) does not model re-entrant rounds;
+                # such an order is checked by the monitors only
+                po['reentrant_auction'] = True
         po['ins'].append('IMatch (%s) %s' % (lo, q(fee)))
         po.setdefault('flags', []).append(auction)
         bar, daybar = bars_at(cx, oid, snap)
@@ -435,7 +439,10 @@ def analyse(scn, out):
             stl = {'PENDING_NEW': 'PendingNew', 'ACTIVE': 'Active', 'FILLED': 'SFilled', 'CANCELLED': 'SCancelled', 'REJECTED': 'SRejected', 'PENDING_CANCEL': 'PendingCancel'}[fo['status']]
             term = 'chk_order %s [%s] [%s] [%s] %s %s %s %s' % (q(fo['qty']), '; '.join(seq.get(oid_, [])), '; '.join(blit(b) for b in flagseq.get(oid_, [])),
                                                               '; '.join(e[0] for e in evs), stl, q(fo['filled']), q(fo['avg']), q(fo['tcost']))
-            cx.case('order.lifecycle', term, dict(order=fo, inputs=seq.get(oid_, []), events=names))
+            if per_order.get(oid_, {}).get('reentrant_auction'):
+                cx.stats['lifecycle_not_modelled_reentrant_auction'] = cx.stats.get('lifecycle_not_modelled_reentrant_auction', 0) + 1
+            else:
+                cx.case('order.lifecycle', term, dict(order=fo, inputs=seq.get(oid_, []), events=names))
             cx.keys.add(repr(('O', fo['status'], fo['type'], len(trs) if len(trs) < 3 else 3, 'ICancel' in seq.get(oid_, []), names.count('EvUnsolicited'))))
         except Skip:
             cx.skipped += 1
